@@ -40,7 +40,7 @@ CLAIMED = {
   "sampling; outside the bursts requests are atomic; disk-error faults (ENOSPC/EIO) and power-loss semantics are not injected; a crash is modelled as a BaseException at the seam (finally-blocks of the application still run); linearizability of bursts is measured (probes) but not judged because no listed property states it",
   TECH + "invariants on durable state after every event + liveness probes"),
  "C20": ("exploration",
-  "the reader's two seams are simulator-owned: the clock behind Buffer.timestamp (ticking, frozen so that all timestamps tie, stepping backwards so that the newest buffer looks oldest - the seed thereby chooses the eviction order) and the underlying file (BytesIO or a real file on the simulated disk); seeded sequences of read(n), read(-1), seek (three whences, negative and beyond-end), tell and peek are compared operation by operation with io.BytesIO over the same (offset, size) window for buffer sizes 1..16384 including non-divisors and cache limits >= 2",
+  "the reader's two seams are simulator-owned: the clock behind Buffer.timestamp (ticking, frozen so that all timestamps tie, stepping backwards so that the newest buffer looks oldest - the seed thereby chooses the eviction order) and the underlying file (BytesIO or a real file on the simulated disk, whose position another user of the same handle moves between operations - the server keeps one handle per file and one windowed reader per fragment); seeded sequences of read(n), read(-1), seek (three whences, negative and beyond-end), tell and peek are compared operation by operation with io.BytesIO over the same (offset, size) window for buffer sizes 1..16384 including non-divisors and cache limits >= 2",
   "explicit window sizes only (as the statement quantifies); peek may return more than requested, only its first min(n, remaining) bytes and the unchanged position are judged",
   TECH + "operation-by-operation comparison with a reference model"),
  "C06": ("exploration",
